@@ -209,7 +209,13 @@ class SmtpRelayClient(RelayPoolClient):
             if accepted(rcptto):
                 break
         else:
-            raise SmtpRelayError.factory(rcpttos[0])
+            exc = SmtpRelayError.factory(rcpttos[0])
+            # Every recipient was refused with a reply of its own: keep them,
+            # so that a 5xx for one recipient does not bounce another one that
+            # was only deferred (nor a 4xx defer one that is unknown).
+            exc.rcpt_errors = [SmtpRelayError.factory(rcptto)
+                               for rcptto in rcpttos]
+            raise exc
         if data.is_error():
             raise SmtpRelayError.factory(data)
 
@@ -258,6 +264,14 @@ class SmtpRelayClient(RelayPoolClient):
             if not accepted(rcpt_reply):
                 rcpt_results[rcpt] = SmtpRelayError.factory(rcpt_reply)
 
+    def _set_failure(self, result, envelope, exc):
+        rcpt_errors = getattr(exc, 'rcpt_errors', None)
+        if rcpt_errors and len(set(type(e) for e in rcpt_errors)) > 1:
+            # refused recipient by recipient, and not all in the same way
+            result.set(dict(zip(envelope.recipients, rcpt_errors)))
+        else:
+            result.set_exception(exc)
+
     def _deliver(self, result, envelope):
         rcpt_results = dict.fromkeys(envelope.recipients)
         try:
@@ -267,7 +281,7 @@ class SmtpRelayClient(RelayPoolClient):
             if not accepted(msg_result):
                 raise SmtpRelayError.factory(msg_result)
         except SmtpRelayError as e:
-            result.set_exception(e)
+            self._set_failure(result, envelope, e)
             self._rset()
         else:
             for key, value in rcpt_results.items():
